@@ -321,11 +321,218 @@ func (c *classifier) maxMin() bool {
 			be, isBin := ifs.Cond.(*ast.BinaryExpr)
 			if !isBin || (be.Op != token.GTR && be.Op != token.LSS && be.Op != token.GEQ && be.Op != token.LEQ) {
 				ok = false
+				return true
+			}
+			// what the branch keeps is the extreme value itself: `if d < best { best = d }`.  Anything else
+			// kept with it (the entry that had the extreme value) is decided by the order among equal entries.
+			x, y := types.ExprString(ast.Unparen(be.X)), types.ExprString(ast.Unparen(be.Y))
+			for _, st := range ifs.Body.List {
+				as, isAssign := st.(*ast.AssignStmt)
+				if !isAssign || len(as.Lhs) != 1 || len(as.Rhs) != 1 {
+					ok = false
+					continue
+				}
+				l, r := types.ExprString(as.Lhs[0]), types.ExprString(ast.Unparen(as.Rhs[0]))
+				if !(l == x && r == y || l == y && r == x) {
+					if id, isId := as.Lhs[0].(*ast.Ident); isId {
+						if obj := c.info.ObjectOf(id); obj != nil && obj.Pos() >= c.s.rs.Pos() && obj.Pos() <= c.s.rs.End() {
+							continue // a local of the body
+						}
+					}
+					ok = false
+				}
 			}
 		}
 		return true
 	})
 	return ok
+}
+
+// argminTotal accepts the selection of one entry by a total order: the body computes a measure d of the
+// entry from its key, and one `if` keeps the entry when d is strictly better than the best so far, or equal
+// with a strictly smaller (or larger) key — map keys are distinct, so (d, key) orders the entries totally
+// and the entry kept at the end is the same for every iteration order.  A first-iteration test `best == 0`
+// in the condition is sound only if d is never 0: accepted when d is the distance |key - c| and the
+// function has returned earlier on a successful lookup of c in the same map.
+func (c *classifier) argminTotal() bool {
+	rs := c.s.rs
+	key, ok := rs.Key.(*ast.Ident)
+	if !ok || key.Name == "_" {
+		return false
+	}
+	keyObj := c.info.ObjectOf(key)
+	var sel *ast.IfStmt
+	inBody := func(o types.Object) bool { return o != nil && o.Pos() >= rs.Pos() && o.Pos() <= rs.End() }
+	for _, st := range rs.Body.List {
+		switch t := st.(type) {
+		case *ast.AssignStmt:
+			for _, l := range t.Lhs {
+				id, isId := l.(*ast.Ident)
+				if !isId || !inBody(c.info.ObjectOf(id)) {
+					return false
+				}
+			}
+		case *ast.IfStmt:
+			// an adjustment of a local (`if d < 0 { d = -d }`) or the selection
+			local := t.Else == nil
+			for _, b := range t.Body.List {
+				as, isAssign := b.(*ast.AssignStmt)
+				if !isAssign {
+					return false
+				}
+				for _, l := range as.Lhs {
+					id, isId := l.(*ast.Ident)
+					if !isId {
+						return false
+					}
+					if !inBody(c.info.ObjectOf(id)) {
+						local = false
+					}
+				}
+			}
+			if local {
+				continue
+			}
+			if sel != nil || t.Else != nil {
+				return false
+			}
+			sel = t
+		default:
+			return false
+		}
+	}
+	if sel == nil {
+		return false
+	}
+	assigned := map[string]string{} // outer variable -> expression it is set to
+	for _, b := range sel.Body.List {
+		as := b.(*ast.AssignStmt)
+		if len(as.Lhs) != len(as.Rhs) || as.Tok != token.ASSIGN {
+			return false
+		}
+		for i := range as.Lhs {
+			assigned[types.ExprString(as.Lhs[i])] = types.ExprString(ast.Unparen(as.Rhs[i]))
+		}
+	}
+	var disj []ast.Expr
+	var flat func(e ast.Expr)
+	flat = func(e ast.Expr) {
+		e = ast.Unparen(e)
+		if be, ok := e.(*ast.BinaryExpr); ok && be.Op == token.LOR {
+			flat(be.X)
+			flat(be.Y)
+			return
+		}
+		disj = append(disj, e)
+	}
+	flat(sel.Cond)
+	strict, tie := "", false
+	measure, best := "", ""
+	var sentinels []*ast.BinaryExpr
+	cmp := func(e ast.Expr) (l, r string, op token.Token, ok bool) {
+		be, isBin := ast.Unparen(e).(*ast.BinaryExpr)
+		if !isBin {
+			return "", "", 0, false
+		}
+		return types.ExprString(ast.Unparen(be.X)), types.ExprString(ast.Unparen(be.Y)), be.Op, true
+	}
+	for _, d := range disj {
+		if l, r, op, ok := cmp(d); ok && (op == token.LSS || op == token.GTR) {
+			// measure < best with best = measure in the body (either side)
+			if assigned[r] == l {
+				measure, best, strict = l, r, op.String()
+				continue
+			}
+			if assigned[l] == r {
+				measure, best = r, l
+				strict = map[token.Token]string{token.LSS: ">", token.GTR: "<"}[op]
+				continue
+			}
+		}
+		if be, ok := ast.Unparen(d).(*ast.BinaryExpr); ok && be.Op == token.LAND {
+			l1, r1, op1, ok1 := cmp(be.X)
+			l2, r2, op2, ok2 := cmp(be.Y)
+			if ok1 && ok2 && op1 == token.EQL && (op2 == token.LSS || op2 == token.GTR) {
+				eq := assigned[r1] == l1 || assigned[l1] == r1
+				byKey := (l2 == key.Name && assigned[r2] == key.Name) || (r2 == key.Name && assigned[l2] == key.Name)
+				if eq && byKey {
+					tie = true
+					continue
+				}
+			}
+			return false
+		}
+		if be, ok := ast.Unparen(d).(*ast.BinaryExpr); ok && be.Op == token.EQL {
+			sentinels = append(sentinels, be)
+			continue
+		}
+		return false
+	}
+	if strict == "" || !tie || measure == "" {
+		return false
+	}
+	_ = keyObj
+	for _, sb := range sentinels {
+		// best == 0 (first iteration): sound only when the measure is never 0
+		l, r := types.ExprString(ast.Unparen(sb.X)), types.ExprString(ast.Unparen(sb.Y))
+		if !(l == best && r == "0" || r == best && l == "0") || strict != "<" {
+			return false
+		}
+		if !c.distanceNeverZero(measure, key.Name) {
+			return false
+		}
+	}
+	return true
+}
+
+// distanceNeverZero: measure is a local set to key - c (or c - key), made non-negative by `if m < 0 { m = -m }`,
+// and the enclosing function returns when c is found in the ranged map before the loop.
+func (c *classifier) distanceNeverZero(measure, key string) bool {
+	rs := c.s.rs
+	other := ""
+	for _, st := range rs.Body.List {
+		if as, ok := st.(*ast.AssignStmt); ok && len(as.Lhs) == 1 && len(as.Rhs) == 1 && types.ExprString(as.Lhs[0]) == measure {
+			if be, ok := ast.Unparen(as.Rhs[0]).(*ast.BinaryExpr); ok && be.Op == token.SUB {
+				l, r := types.ExprString(ast.Unparen(be.X)), types.ExprString(ast.Unparen(be.Y))
+				if l == key {
+					other = r
+				} else if r == key {
+					other = l
+				}
+			}
+		}
+	}
+	if other == "" {
+		return false
+	}
+	m := types.ExprString(rs.X)
+	found := false
+	ast.Inspect(c.s.fd.Body, func(n ast.Node) bool {
+		blk, ok := n.(*ast.BlockStmt)
+		if !ok {
+			return true
+		}
+		for i, st := range blk.List {
+			as, ok := st.(*ast.AssignStmt)
+			if !ok || len(as.Lhs) != 2 || len(as.Rhs) != 1 || st.End() > rs.Pos() {
+				continue
+			}
+			ix, ok := ast.Unparen(as.Rhs[0]).(*ast.IndexExpr)
+			if !ok || types.ExprString(ix.X) != m || types.ExprString(ast.Unparen(ix.Index)) != other {
+				continue
+			}
+			okName := types.ExprString(as.Lhs[1])
+			for _, nx := range blk.List[i+1:] {
+				if ifs, isIf := nx.(*ast.IfStmt); isIf && types.ExprString(ast.Unparen(ifs.Cond)) == okName && len(ifs.Body.List) > 0 {
+					if _, isRet := ifs.Body.List[len(ifs.Body.List)-1].(*ast.ReturnStmt); isRet && nx.End() < rs.Pos() {
+						found = true
+					}
+				}
+			}
+		}
+		return true
+	})
+	return found
 }
 
 // Frozen is a reasoned verdict for a map range whose body calls into the module.
@@ -361,6 +568,8 @@ func MapRanges(p *load.Program, run *report.Run, roots []*ssa.Function, frozen m
 			run.OK(rule, key, pos, "unique-match search")
 		case len(c.call) == 0 && c.maxMin():
 			run.OK(rule, key, pos, "max/min accumulation")
+		case len(c.call) == 0 && c.argminTotal():
+			run.OK(rule, key, pos, "selection of one entry by a total order (measure, then key)")
 		default:
 			if fz, ok := frozen[key]; ok {
 				pre := fz.NoGlobalWritesFrom
